@@ -227,6 +227,11 @@ def live_phase(ctx):
             ctx.violation("model and daemon disagree in the C05 live phase on %d cases (first: %s)" % (len(mism), mism[0]["diff"]),
                           {"obligation": "correspondence CredModel ~ munged (C05 live)", "first": mism[0]}, found_input=False)
     pm = purge_phase(ctx, orc, fails, dist)
+    from props import c07 as _c07
+    qf = []
+    _c07.queued_across_expiry(ctx, orc, qf, dist)
+    for f in qf:
+        fails.append(dict(f, why=f["why"]))
     if pm and not fails:
         ctx.violation("model and daemon disagree in the C05 purge histories on %d cases (first: %s; history %s)"
                       % (len(pm), pm[0]["diff"], " ".join(pm[0]["history"])),
